@@ -385,14 +385,18 @@ def run_linalg_vector(vec, tid: str, prop: str, variant: int = 0) -> dict:
         for key, choice in (("has_pre", vec["pre"]), ("has_app", vec["app"])):
             if choice == "none":
                 continue
+            # every third replay gives prepend / append another coefficient dtype: the result is promoted
+            ekind = kind if (variant // 2) % 3 else ("float" if kind == "int" else "int")
+            def other(shape_, tag):
+                return build_poly(distinct_poly_spec(rng, tuple(shape_), names=names, kind=ekind, tag=tag))
             if choice == "scalar":
-                extra = operand((), tag=5) if variant % 2 else (2 if kind == "int" else 0.5)
+                extra = other((), 5) if variant % 2 else (2 if ekind == "int" else 0.5)
             elif k == "diff":
                 s2 = list(shape)
                 s2[vec["axis"]] = 1 + variant % 2
-                extra = operand(s2, tag=5)
+                extra = other(s2, 5)
             else:
-                extra = operand((1 + variant % 2,), tag=5)
+                extra = other((1 + variant % 2,), 5)
             args.append(rec.new(extra))
             p[key] = True
         do(k, args, p, ("numpoly", "numpy")[variant % 2])
